@@ -1203,9 +1203,9 @@ def install(ex):
     @model(r"^core::slice::<impl \[.*\]>::(sort_by|sort_unstable_by|sort_by_key|sort_unstable_by_key|sort|sort_unstable)$", "slice sort with a comparison closure: insertion sort over the (concrete-length) sequence, each comparison forked")
     def slice_sort(ex, callee, args, rt):
         s_ = ex.deref(args[0])
-        if "by_key" in callee or len(args) < 2:
+        if "by_key" in callee:
             raise Unsupported("sort variant " + callee)
-        cmpf = args[1]
+        cmpf = args[1] if len(args) >= 2 else None
         for n in seq_len_cases(ex, s_):
             vals = [ex.seq_item(s_, j).v for j in range(n)]
 
@@ -1222,13 +1222,43 @@ def install(ex):
                     if pos == len(sorted_):
                         yield from insert_all(sorted_ + [x], rest[1:])
                         return
-                    for o in ex.call_closure(cmpf, [Ref(Cell(x)), Ref(Cell(sorted_[pos]))]):
+                    if cmpf is None:
+                        # natural order: integers only
+                        y = sorted_[pos]
+                        if not (is_z3(x) and is_z3(y) and z3.is_int(x) and z3.is_int(y)):
+                            raise Unsupported("sort of non-integers without a comparison closure")
+                        outcomes = (Adt("Ordering", ("Less", "Greater")[i], []) for i in ex.branches([x < y, x >= y]))
+                    else:
+                        outcomes = ex.call_closure(cmpf, [Ref(Cell(x)), Ref(Cell(sorted_[pos]))])
+                    for o in outcomes:
                         if o.variant == "Less":
                             yield from insert_all(sorted_[:pos] + [x] + sorted_[pos:], rest[1:])
                         else:
                             yield from place(pos + 1)
                 yield from place(0)
             yield from insert_all([], vals)
+
+    @model(r"^(std::vec::)?Vec::(<.*>::)?dedup$", "Vec::dedup over integers (adjacent equal elements removed; comparisons forked)")
+    def vec_dedup(ex, callee, args, rt):
+        s_ = ex.deref(args[0])
+        for n in seq_len_cases(ex, s_):
+            vals = [ex.seq_item(s_, j).v for j in range(n)]
+            if not all(is_z3(v) and z3.is_int(v) for v in vals):
+                raise Unsupported("dedup of non-integers")
+
+            def go(k, kept):
+                if k == n:
+                    for j, v in enumerate(kept):
+                        tset(s_.items[j], "v", v)
+                    tset(s_, "ln", len(kept))
+                    yield UNIT
+                    return
+                if not kept:
+                    yield from go(k + 1, [vals[k]])
+                    return
+                for i in ex.branches([vals[k] == kept[-1], vals[k] != kept[-1]]):
+                    yield from go(k + 1, kept if i == 0 else kept + [vals[k]])
+            yield from go(0, [])
 
     @model(r"^core::slice::<impl \[.*\]>::binary_search_by$", "slice::binary_search_by: std's algorithm on the concrete-length sequence (comparisons forked)")
     def slice_bsearch(ex, callee, args, rt):
@@ -1256,6 +1286,32 @@ def install(ex):
                         yield from loop(base if o.variant == "Greater" else mid, size - half)
                 yield from loop(lo, hi - lo)
             yield from go(0, n)
+
+    @model(r"^core::num::<impl u8>::(to_ascii_uppercase|to_ascii_lowercase|is_ascii_digit|is_ascii_alphabetic)$", "u8 ASCII helpers")
+    def u8_ascii(ex, callee, args, rt):
+        v = ex.deref(args[0])
+        m = callee.rsplit("::", 1)[1]
+        lower = z3.And(v >= 97, v <= 122)
+        upper = z3.And(v >= 65, v <= 90)
+        if m == "to_ascii_uppercase":
+            yield z3.simplify(z3.If(lower, v - 32, v))
+        elif m == "to_ascii_lowercase":
+            yield z3.simplify(z3.If(upper, v + 32, v))
+        elif m == "is_ascii_digit":
+            yield z3.And(v >= 48, v <= 57)
+        else:
+            yield z3.Or(lower, upper)
+
+    @model(r"^core::str::<impl str>::(chars|bytes)$|^(std::string::)?String::(chars|bytes)$", "str::chars / bytes over a literal or a character list")
+    def str_chars(ex, callee, args, rt):
+        sv = ex.deref(args[0])
+        if isinstance(sv, CharStr):
+            items = list(sv.chars)
+        elif isinstance(sv, StrVal) and sv.concrete() is not None:
+            items = [z3.IntVal(ord(ch)) for ch in sv.concrete()]
+        else:
+            raise Unsupported("chars() of a symbolic string")
+        yield IterObj("seq", seq=new_seq(ex, items), pos=0, by_ref=False, mut=False)
 
     @model(r"^core::str::<impl str>::(len|is_empty)$|^(std::string::)?String::(len|is_empty)$", "str::len / is_empty on literals and character lists")
     def str_len(ex, callee, args, rt):
@@ -1428,7 +1484,7 @@ def install(ex):
         acc = [z3.And(cond, has) for st, cond, has in cur if st in (2, 4, 7)]
         return z3.Or(*acc) if acc else z3.BoolVal(False)
 
-    @model(r"^<(std::option::)?Option<(char|i32|u32|usize|bool)> as PartialEq>::(eq|ne)$", "Option<scalar> equality")
+    @model(r"^<(std::option::)?Option<(&(mut )?)*(char|i32|u32|usize|bool|u8)> as PartialEq>::(eq|ne)$", "Option<scalar> / Option<&scalar> equality")
     def option_eq(ex, callee, args, rt):
         a, b = ex.deref(args[0]), ex.deref(args[1])
         neg = callee.endswith("ne")
@@ -1439,8 +1495,40 @@ def install(ex):
                 elif va == "None":
                     r = z3.BoolVal(True)
                 else:
-                    r = variant_field(ex, a, "Some", 0) == variant_field(ex, b, "Some", 0)
+                    r = ex.deref(variant_field(ex, a, "Some", 0)) == ex.deref(variant_field(ex, b, "Some", 0))
                 yield z3.Not(r) if neg else r
+
+    @model(r"^<(std::option::)?Option<(std::cmp::|core::cmp::)?Ordering> as PartialEq>::(eq|ne)$|^<(std::cmp::|core::cmp::)?Ordering as PartialEq>::(eq|ne)$", "equality of (optional) orderings")
+    def option_ordering_eq(ex, callee, args, rt):
+        a, b = ex.deref(args[0]), ex.deref(args[1])
+        neg = callee.endswith("ne")
+
+        def shapes(v):
+            if isinstance(v, Adt) and v.ty == "Ordering":
+                yield v.variant
+                return
+            if isinstance(v, Adt) and v.ty == "Option":
+                if v.variant == "None":
+                    yield None
+                else:
+                    yield from shapes(ex.deref(v.fields[0]))
+                return
+            if isinstance(v, Lazy):
+                names = ENUMS.get(base_ty(v.ty)) or (["None", "Some"] if base_ty(v.ty) == "Option" else ["Less", "Equal", "Greater"])
+                for nm in enum_branch(ex, v, names):
+                    if nm == "None":
+                        yield None
+                    elif nm == "Some":
+                        yield from shapes(ex.deref(variant_field(ex, v, "Some", 0)))
+                    else:
+                        yield nm
+                return
+            raise Unsupported("ordering operand %r" % (v,))
+
+        for sa in shapes(a):
+            for sb in shapes(b):
+                r = sa == sb
+                yield z3.BoolVal(r != neg)
 
     @model(r"^(std::string::)?String::new$", "String::new")
     def string_new(ex, callee, args, rt):
@@ -1523,6 +1611,17 @@ def install(ex):
             raise NoModel()
         for i in seq_index_cases(ex, s, k):
             yield NONE if i is None else Some(Ref(ex.seq_item(s, i)))
+
+    @model(r"^<(std::vec::)?Vec<.*> as (Index|IndexMut)<usize>>::(index|index_mut)$|^<\[.*\] as (Index|IndexMut)<usize>>::(index|index_mut)$|^<(smallvec::)?SmallVec<.*> as (Index|IndexMut)<usize>>::(index|index_mut)$", "v[i] with a symbolic index (out of range = panic)")
+    def vec_index(ex, callee, args, rt):
+        s = ex.deref(args[0])
+        if not isinstance(s, SeqObj):
+            raise NoModel()
+        for i in seq_index_cases(ex, s, args[1]):
+            if i is None:
+                ex.panic("index out of bounds", callee)
+            else:
+                yield Ref(ex.seq_item(s, i))
 
     @model(r"^core::slice::<impl \[.*\]>::(first|last)$", "slice::first/last")
     def slice_first(ex, callee, args, rt):
